@@ -323,9 +323,12 @@ static void ProcessFile(char const* FileName, LongWord Offset) {
                         fprintf(TargFile, "S0030000FC\n");
                         ChkIO(TargName);
                     }
-                    if ((ErgStop >> 24) != 0) {
+                    /* the record type must hold the last address that is written,
+                       i.e. after -a and -R have been applied */
+
+                    if (((ErgStart + (ErgLen / Gran) - 1) >> 24) != 0) {
                         MotRecType = 2;
-                    } else if ((ErgStop >> 16) != 0) {
+                    } else if (((ErgStart + (ErgLen / Gran) - 1) >> 16) != 0) {
                         MotRecType = 1;
                     } else {
                         MotRecType = 0;
